@@ -258,6 +258,69 @@ def check_case(c, o, stats):
     return None
 
 
+def call_budget(c, o, r, pos):
+    """(position, direction) budget of one call: the same formulas as check_case"""
+    opts = c["opts"]
+    eps = opts[4] if c["sk"] != 2 else 1e-9
+    tol = (2 * (opts[1] + 1e-6) + 2 * opts[2] + 2 * eps * r["dist"] * (1 + r["nstep"])
+           + 1e-9 * (norm(pos) + r["dist"]))
+    kk = abs(o["coeffi"]) * (norm(c["b"]) if c["fk"] != 2 else 4e4) / o["pmag"]
+    dbud = 2 * eps * (1 + r["nstep"]) + kk * (tol + 2 * opts[0]) + 1e-9
+    return tol, dbud, kk
+
+
+def compare_twins(c, oa, ob, stats):
+    """the same case run (a) with ONE propagator object serving all calls and (b) with a
+    fresh propagator per call must agree call by call: same flags, distances, positions and
+    directions within the accumulated budgets of the two runs (the cached chord length of the
+    driver and the un-renormalised momentum legitimately change the subdivision, so agreement
+    is up to the integration tolerances, not bitwise).  A differing boundary flag is accepted
+    when the interior end point is within the budget of a surface; a differing looping flag
+    (substep counts) ends the comparison.  Returns text or None."""
+    opts = c["opts"]
+    if c["sk"] == 2 and not c["onaxis"]:
+        return None
+    if c["rad"] <= 10 * opts[0]:
+        stats["twins_uncontrolled_skipped"] = stats.get("twins_uncontrolled_skipped", 0) + 1
+        return None
+    if oa["start"] != ob["start"]:
+        return "start states differ: %r vs %r" % (oa["start"], ob["start"])
+    accp, accd = 0.0, 0.0
+    pos = oa["start"]["pos"]
+    for k, (ra, rb) in enumerate(zip(oa["calls"], ob["calls"])):
+        ta, da, kk = call_budget(c, oa, ra, pos)
+        tb, db, _ = call_budget(c, ob, rb, pos)
+        dist = max(ra["dist"], rb["dist"])
+        accp = accp * (1 + kk * dist) + accd * dist + 2 * (ta + tb)
+        accd = accd + kk * accp + 2 * (da + db)
+        if ra["loop"] != rb["loop"]:
+            stats["twins_looping_differs"] = stats.get("twins_looping_differs", 0) + 1
+            return None
+        if ra["bnd"] != rb["bnd"]:
+            inner = rb if ra["bnd"] else ra
+            if inner["fsafety"] <= accp + 2 * (opts[2] + opts[0]):
+                stats["twins_boundary_within_budget"] = stats.get("twins_boundary_within_budget", 0) + 1
+                return None
+            return ("call %d: one propagator object for all calls reports boundary=%r, a fresh propagator per call "
+                    "boundary=%r, and the interior end point is %.3g from the nearest surface (budget %.3g)"
+                    % (k, ra["bnd"], rb["bnd"], inner["fsafety"], accp))
+        perr = norm([x - y for x, y in zip(ra["pos"], rb["pos"])])
+        derr = norm([x - y for x, y in zip(ra["dir"], rb["dir"])])
+        stats["twins_max_perr_over_budget"] = max(stats.get("twins_max_perr_over_budget", 0.0), perr / accp)
+        if ra["bnd"] and (ra["vol"] != rb["vol"]) and perr <= accp:
+            stats["twins_other_surface_within_budget"] = stats.get("twins_other_surface_within_budget", 0) + 1
+            return None
+        if abs(ra["dist"] - rb["dist"]) > accp or perr > accp:
+            return ("call %d: one propagator object for all calls ends at %r after %r, a fresh propagator per call at %r "
+                    "after %r: %.3g apart (budget %.3g)" % (k, ra["pos"], ra["dist"], rb["pos"], rb["dist"], perr, accp))
+        if derr > accd and not ra["bnd"]:
+            return ("call %d: directions %r (one object) and %r (fresh per call) differ by %.3g (budget %.3g)"
+                    % (k, ra["dir"], rb["dir"], derr, accd))
+        stats["twins_calls_compared"] = stats.get("twins_calls_compared", 0) + 1
+        pos = ra["pos"]
+    return None
+
+
 def gen_helix_cases(r, nh):
     hcases = []
     for _ in range(nh):
@@ -288,6 +351,15 @@ def start(ctx, exe):
         # every other case makes all its calls on ONE propagator object (internal state
         # persists between calls); the others construct a fresh propagator per call
         c["reuse"] = k % 2
+    # twins: every 4th reuse case is ALSO run with a fresh propagator per call; the two
+    # runs must agree call by call (compare_twins)
+    job["twins"] = []
+    for k, c in enumerate(list(job["cases"])):
+        if c["reuse"] and (k // 2) % 2 == 0 and len(c["steps"]) > 1:
+            t = dict(c)
+            t["reuse"] = 0
+            job["twins"].append((k, len(job["cases"])))
+            job["cases"].append(t)
 
     def work():
         try:
@@ -360,9 +432,11 @@ def finish(ctx, job, PRE):
     nv = 0
     fn = {0: "UniformField", 1: "UniformZField", 2: "RZMapField"}
     sn = {0: "DormandPrince", 1: "RK4", 2: "ZHelix"}
-    for c, line in zip(cases, lines):
+    parsed = {}
+    for idx, (c, line) in enumerate(zip(cases, lines)):
         o = parse_case(line)
-        key = [c["geom"], c["pos"], c["dir"], c["energy"], c["b"]]
+        parsed[idx] = o
+        key = [c["geom"], c["pos"], c["dir"], c["energy"], c["b"], c.get("reuse", 0)]
         if o["status"] != "ok":
             ctx.case(key, nontrivial=False)
             ctx.count("e2e:" + o["status"])
@@ -399,6 +473,23 @@ def finish(ctx, job, PRE):
                           {"case": c, "impl": o, "harness_line": case_line(c),
                            "run": "%s %s %s" % (exe, geodir, fmap)})
             if nv > 6:
+                break
+    # ---- one propagator object for all calls vs a fresh one per call --------------
+    nt = 0
+    for ia, ib in job.get("twins", []):
+        oa, ob = parsed.get(ia), parsed.get(ib)
+        if not oa or not ob or oa["status"] != "ok" or ob["status"] != "ok":
+            continue
+        ctx.count("e2e:twin-runs-compared")
+        tv = compare_twins(cases[ia], oa, ob, stats)
+        if tv:
+            found = True
+            nt += 1
+            c = cases[ia]
+            ctx.violation("property", "end-to-end (%s, %s, %s), propagator reuse: %s" % (c["geom"], fn[c["fk"]], sn[c["sk"]], tv),
+                          {"case": c, "one_object": oa, "fresh_per_call": ob,
+                           "harness_line_one_object": case_line(c), "harness_line_fresh": case_line(cases[ib])})
+            if nt > 4:
                 break
     derr = sorted(stats.pop("derr", []), reverse=True)
     if derr:
